@@ -29,7 +29,7 @@ pub fn verif_str_inner(path: &str) -> (r: &str)
     ensures r@ == inner(path@), seq!['"'] + r@ + seq!['"'] == path@,
 { unimplemented!() }
 //@ fn src/handlers/diff_header.rs remove_surrounding_quotes
-//@| ensures r@ == unq(path@),
+//@| ensures r@ == unq(path@),  // @C14:a.quoted.name.loses.exactly.its.two.quotes.any.other.name.nothing
 //@rewrite <<<&path[1..path.len() - 1]>>> => <<<verif_str_inner(path)>>>
 
 /// the tab git appends when a name contains a blank
